@@ -180,6 +180,23 @@ Proof.
       * rewrite proj_cons_other by (intro; apply Hne; auto). rewrite (IH2 u Hu). apply nth_upd_other. exact Hne.
 Qed.
 
+(* and conversely: is_interleaving is exactly "obtainable by repeatedly scheduling a pending thread" *)
+Theorem interleaving_is_merge : forall tr p, is_interleaving p tr -> Merge p tr.
+Proof.
+  induction tr as [|[t st] tr IH]; intros p [Hlt Hproj].
+  - apply Merge_nil. intros th Hth. apply In_nth with (d := []) in Hth. destruct Hth as [k [Hk <-]].
+    pose proof (Hproj k Hk) as E. cbn in E. symmetry. exact E.
+  - assert (Ht : t < length p) by (apply (Hlt (t, st)); left; reflexivity).
+    pose proof (Hproj t Ht) as Hn. rewrite proj_cons_same in Hn.
+    apply (Merge_cons p t st (proj t tr) tr).
+    + rewrite (@List.nth_error_nth' (list step) p t [] Ht). f_equal. symmetry. exact Hn.
+    + apply IH. split.
+      * intros e He. rewrite upd_length. apply Hlt. right. exact He.
+      * intros u Hu. rewrite upd_length in Hu. destruct (Nat.eq_dec u t) as [->|Hne].
+        -- rewrite nth_upd_same by exact Ht. reflexivity.
+        -- rewrite nth_upd_other by exact Hne. rewrite <- (Hproj u Hu). rewrite proj_cons_other; [reflexivity | intro; apply Hne; auto].
+Qed.
+
 (* the enumeration merges2 produces interleavings of a two-thread program *)
 Lemma proj_solo_other t u th : t <> u -> proj t (solo u th) = [].
 Proof.
